@@ -612,7 +612,7 @@ func TestVerifC18(t *testing.T) {
 	}
 	ctx, cancel := context.WithCancel(context.Background())
 	defer cancel()
-	n := h.N(1500, 40000)
+	n := h.N(3000, 30000)
 	for idx := 0; idx < n; idx++ {
 		r := h.Begin(idx)
 		if r == nil {
@@ -702,6 +702,7 @@ func TestVerifC18(t *testing.T) {
 		}
 		podID := 0
 		streakA, streakB := map[int]int{}, map[int]int{}
+		totalA, totalB := map[int]int{}, map[int]int{} // rounds so far in which the node was measured over its (prod) high threshold
 		evictedAny := false
 		for rd := 0; rd < rounds; rd++ {
 			now := time.Now()
@@ -729,12 +730,14 @@ func TestVerifC18(t *testing.T) {
 				if isOver(nd) {
 					nOver++
 					streakA[nd.id]++
+					totalA[nd.id]++
 				} else {
 					streakA[nd.id] = 0
 				}
 				if isProdOver(nd) {
 					nProdOver++
 					streakB[nd.id]++
+					totalB[nd.id]++
 				} else {
 					streakB[nd.id] = 0
 				}
@@ -785,8 +788,11 @@ func TestVerifC18(t *testing.T) {
 			ordPods := map[int][]int64{}
 			inOrd := map[int]bool{}
 			for _, e := range log {
-				if e.evict || e.pod.node < 0 {
+				if e.pod.node < 0 {
 					continue
+				}
+				if e.evict {
+					seen[e.pod] = true
 				}
 				if !inOrd[e.pod.node] {
 					inOrd[e.pod.node] = true
@@ -891,6 +897,7 @@ func TestVerifC18(t *testing.T) {
 			}
 			var usedA, usedB [3]int64
 			lastFilter := map[*c18Pod]int{} // 0 never called, 1 false, 2 true
+			filterAsked := map[*c18Pod]int{}
 			// "all nodes are underused" (every node in an underused class, none overloaded) is a special case of
 			// "no node is overloaded", so two clauses suffice.
 			if nEv > 0 && ((nOver == 0 && nProdOver == 0) || (nUnder == 0 && nProdUnder == 0)) {
@@ -899,6 +906,7 @@ func TestVerifC18(t *testing.T) {
 			}
 			for _, e := range log {
 				if !e.evict {
+					filterAsked[e.pod]++
 					if e.res {
 						lastFilter[e.pod] = 2
 					} else {
@@ -913,8 +921,15 @@ func TestVerifC18(t *testing.T) {
 					h.Fail("C18:evict-unmeasured-node", "round %d: pod %d evicted from node %d which has no usable metric / is outside the pool", rd, p.id, p.node)
 					continue
 				}
-				if lastFilter[p] != 2 {
-					h.Fail("C18:filter-not-passed", "round %d: pod %d evicted although the pod filter did not pass right before (state %d)", rd, p.id, lastFilter[p])
+				// what the filters answer for this pod at the moment of the call (first ask: f1, later asks: f2),
+				// whether or not the code asked
+				passNow := p.f2
+				if filterAsked[p] == 0 {
+					passNow = p.f1
+				}
+				if !passNow || lastFilter[p] == 1 {
+					h.Fail("C18:filter-not-passed", "round %d: pod %d evicted although it does not pass the pod filters at that moment (asked %d times, last answer %d)",
+						rd, p.id, filterAsked[p], lastFilter[p])
 				}
 				headOK := func(used, head [3]int64) bool {
 					for d := 0; d < 3; d++ {
@@ -952,9 +967,14 @@ func TestVerifC18(t *testing.T) {
 					}
 				}
 				if c.abn >= 2 {
-					st := streakA[nd.id]
+					st, tot := streakA[nd.id], totalA[nd.id]
 					if !kindA {
-						st = streakB[nd.id]
+						st, tot = streakB[nd.id], totalB[nd.id]
+					}
+					// weaker clause that the code is expected to meet even with gaps (cf. anomaly_gating_partial)
+					if tot < c.abn {
+						h.Fail("C18:anomaly-too-few-detections", "round %d: pod %d evicted from node %d which was over its high threshold in only %d round(s) of the whole history; consecutiveAbnormalities=%d",
+							rd, p.id, nd.id, tot, c.abn)
 					}
 					if st < c.abn {
 						h.Fail("C18:anomaly-not-consecutive", "round %d: pod %d evicted from node %d which was over its high threshold in only the last %d consecutive round(s); consecutiveAbnormalities=%d",
